@@ -521,7 +521,7 @@ func init() {
 			r := newRng(seed)
 			n := 500
 			if tier == "thorough" {
-				n = 12000
+				n = 6000
 			}
 			for i := 0; i < n; i++ {
 				s := c34GenState(r, r.chance(50))
